@@ -82,6 +82,13 @@ pub fn gen_step(rng: &mut Rng, i: usize, s: &State, flavour: Flavour, max_steps:
     };
     if rng.chance(p_x) || g.in_use.is_empty() {
         let free: Vec<u32> = g.in_use.iter().copied().filter(|&d| s.is_free(d)).collect();
+        // now and then a removal that must be refused (linked or already removed dart)
+        if rng.chance(0.12) {
+            let bad: Vec<u32> = (1..s.n() as u32).filter(|&d| s.unused[d as usize] || !s.is_free(d)).collect();
+            if !bad.is_empty() {
+                return Some(Step::RemoveAnyDart(*rng.pick(&bad)));
+            }
+        }
         return Some(match rng.below(6) {
             0 => Step::AddFreeDart,
             1 => Step::AddFreeDarts(1 + rng.below(5) as u32),
@@ -340,6 +347,7 @@ fn run_one(cfg: &Cfg, tier: Tier, i: u64, seed: u64, c: &mut Counters) -> Vec<Vi
             c.add("probe_tx_reexecuted", p.reexecuted);
             c.add("c03_queries", p.c03_queries);
             c.add("probe_slot_reuse", p.alloc_reuse);
+            c.add("probe_illegal_removals_tried", p.illegal_removals);
             c.add("probe_alloc_append", p.alloc_append);
             c.add("attr_callbacks", p.callbacks);
             c.add("kernel_premise_failed", p.k_premise_failed);
@@ -357,24 +365,7 @@ fn run_one(cfg: &Cfg, tier: Tier, i: u64, seed: u64, c: &mut Counters) -> Vec<Vi
             let f2c = o.steps.iter().filter(|s| matches!(s, Step::Tx(t) if !t.f2.is_empty())).count() as u64;
             c.add("f2_configured", f2c);
             c.sample(|| json!({"seed": seed, "init": &h.init, "steps": &o.steps}));
-            let mut extra_findings: Vec<StepFinding> = vec![];
-            if cfg.prop == "C18" && o.fin.wf().is_ok() && o.fin.n() >= 4 {
-                // refusal of illegal removals, in sacrificial executions on the final state
-                let fin = Arc::new(o.fin.clone());
-                let linked: Vec<u32> = (1..fin.n() as u32).filter(|&d| !fin.unused[d as usize] && !fin.is_free(d)).collect();
-                let removed: Vec<u32> = (1..fin.n() as u32).filter(|&d| fin.unused[d as usize]).collect();
-                let mut r2 = rng.fork(7);
-                for (cands, class, what) in [(&linked, "removal-of-linked-dart-accepted", "linked"), (&removed, "double-removal-accepted", "already removed")] {
-                    if cands.is_empty() {
-                        continue;
-                    }
-                    let d = *r2.pick(cands);
-                    c.inc("probe_illegal_removals_tried");
-                    if !removal_is_refused(fin.clone(), h.order.clone(), d) {
-                        extra_findings.push(StepFinding { step: o.steps.len().saturating_sub(1), finding: crate::oracle::Finding { prop: "C18", class: class.into(), msg: format!("remove_free_dart({d}) on a {what} dart was not refused") } });
-                    }
-                }
-            }
+            let extra_findings: Vec<StepFinding> = vec![];
             let mut seen_classes = std::collections::BTreeSet::new();
             for f in o.findings.iter().chain(extra_findings.iter()) {
                 if f.finding.prop == "HARNESS" {
